@@ -88,7 +88,13 @@ class LeakyClamp(Module):
         Returns:
             torch.Tensor
         """
-        return leaky_clamp(input, min=min, max=max, clamped_slope=self.clamped_slope)
+        return leaky_clamp(
+            input,
+            min=min,
+            max=max,
+            clamped_slope=self.clamped_slope,
+            inverted_output=self.inverted_output,
+        )
 
 
 class Clamp(Module):
